@@ -103,6 +103,15 @@ def _is_len_of(expr, name):
     return False
 
 
+def _factor_kind(e, xname):
+    txt = ast.unparse(e).replace(" ", "")
+    if txt in (f"len({xname})", "len(candidates)", f"{xname}.shape[0]", "candidates.shape[0]", "len(y)", "y.shape[0]"):
+        return "samples"
+    if txt in ("len(y.T)", "y.shape[1]", "len(annotators)", "n_annotators", "y.T.shape[0]"):
+        return "annotators"
+    return None
+
+
 def avail_names_early(tc):
     out = set()
     for n in ast.walk(tc.node):
@@ -193,6 +202,10 @@ def run(p, report, tier):
                 bad = f"candidates are given on this path but the size is taken from len({xname})"
             if cand_none and _is_len_of(stmt.value, "candidates"):
                 bad = "candidates is None on this path but len(candidates) is used"
+            if bad is None and fn is vd and isinstance(stmt.value, ast.BinOp) and isinstance(stmt.value.op, ast.Mult):
+                kinds = [_factor_kind(stmt.value.left, xname), _factor_kind(stmt.value.right, xname)]
+                if sorted(k for k in kinds if k) != ["annotators", "samples"]:
+                    bad = f"a pair count is (number of samples) x (number of annotators); found factors {kinds}"
             key = (id(stmt))
             if key in judged and bad is None:
                 continue
